@@ -96,6 +96,28 @@ CLAIMED['C17'] = dict(
    technique="Coq proof (insertion-sort correctness, invariant by induction over annealer calls, Reals inequalities) + vm_compute correspondence",
    ref="DESIGN.md section 3, C17")
 
+CLAIMED['C13'] = dict(
+   text="Theorems over the reals about the single-definition update kernels of normal.py/eigenvector.py/solid_angle.py: inside its window a "
+        "Veitch proposal never narrows on acceptance nor widens on rejection (default decay: dk^(-1/log10 T) >= 0.1 proved), Sivia-Skilling "
+        "follows the cumulative rate, the Andrieu-Thoms / eigenvector log-scale and the solid-angle concentration move strictly in the documented "
+        "sense with the acceptance ratio; once dk >= duration every update is the identity, for every later history. The float instance is run "
+        "against every real _update call of all 18 adaptive classes under forced histories (incl. a mid-run reset), which are also checked for "
+        "direction and freezing directly.",
+   note=NUM_NOTE + "Componentwise and full-covariance Andrieu-Thoms and the eigenvector covariance recursion are not modelled (direct checks only). "
+        "A user-supplied adaptation_decay larger than 1/log10(duration) reverses the Veitch direction: outside the theorem's premise and the quantifier.",
+   technique="Coq proof over Reals (monotonicity of exp/ln/power, window arithmetic on Z) + vm_compute correspondence of the float instance",
+   ref="DESIGN.md section 3, C13")
+CLAIMED['C14'] = dict(
+   text="Partial by nature. Theorems over the reals: Veitch widths never negative and each step bounded by the always-accept increment; "
+        "Sivia-Skilling widths positive and under the cap; Andrieu-Thoms second moment and widths positive; all Robbins-Monro log-scales move by "
+        "< 1 per step for ratios in [0,1]; kappa > 0. The same kernels' float instance is run against the real updates along the two extremal "
+        "histories (plus alternating/random) for durations 30..3000 (30000 thorough), and real chains on flat/peaked bounded targets are run "
+        "with a generator-draw budget per jump. Float overflow (kappa ~ 709), cancellation (kappa ~ 1e-15) and the unbounded Robbins-Monro "
+        "scale of the bounded/angular variants are real defects found this way and recorded as known findings.",
+   note=NUM_NOTE + "Loop time and IEEE overflow cannot be exhibited by the real-number model: explored on the real code only.",
+   technique="Coq proof over Reals (invariants, per-step envelopes) + vm_compute correspondence + extremal-history exploration of the real code",
+   ref="DESIGN.md section 3, C14")
+
 PENDING_REASON = "not yet claimed: model/theorems for this property are still being built (see DESIGN.md section 3); nothing is asserted about it"
 
 def main():
